@@ -1,5 +1,6 @@
 (* C18: the receive paths of the example listeners never leave their bounds, end, and stay alive. *)
-From Coq Require Import List NArith ZArith Bool Lia Arith String.
+From Coq Require Import List NArith ZArith Bool Lia Arith String ZifyBool ZifyN.
+Ltac Zify.zify_post_hook ::= Z.div_mod_to_equations.
 From O1722 Require Import Sym Bits Host FieldModel FieldProofs Spec SpecProofs AccModel FormatChecks Paths CanModel VssModel
   C13Proofs C01Proofs C05Proofs FieldOpsProofs ExCan ExListeners.
 From O1722.Generated Require Import Tables.
@@ -18,6 +19,16 @@ Lemma recv_len cap old d : N.of_nat (List.length old) = cap ->
   snd (recv_into cap old d) <= N.of_nat (List.length d).
 Proof.
   intros Hc. unfold recv_into. cbn [fst snd]. unfold blen. rewrite app_length, skipn_length, firstn_length. lia.
+Qed.
+
+Lemma runs_safe {S:Type} (step:S -> list N -> lstat * S) (Inv:S -> Prop) :
+  (forall st d, Inv st -> survives (fst (step st d)) /\ Inv (snd (step st d))) ->
+  forall ds st, Inv st -> Forall survives (fst (runs step st ds)) /\ Inv (snd (runs step st ds)).
+Proof.
+  intros Hstep. induction ds as [|d r IH]; intros st Hinv; cbn [runs]; [split; [constructor|exact Hinv]|].
+  destruct (Hstep st d Hinv) as [Hs Hi]. destruct (step st d) as [s st']. cbn [fst snd] in Hs, Hi.
+  specialize (IH st' Hi). destruct (runs step st' r) as [ss stf]. cbn [fst snd] in *. destruct IH as [H1 H2].
+  split; [constructor; assumption|exact H2].
 Qed.
 
 Section Safe.
@@ -104,4 +115,271 @@ Section Safe.
       destruct (res - (proc0 + 12) <? _) eqn:E2; [right; reflexivity|]. apply N.ltb_ge in E2.
       apply lloop_safe; [exact Hlen|lia|lia|]. replace (N.of_nat 2048) with 2048 by reflexivity. lia.
   Qed.
+
+  (* ---------- hello-world and ACF-VSS: common prefix ---------- *)
+  Lemma cf_prefix_ok {R} udp pdu (fail:lstat -> R) (k:N -> R) : blen pdu = 1500 ->
+    exists proc, (proc = 12 \/ proc = 16 \/ proc = 24 \/ proc = 28) /\ cf_prefix LD ST udp pdu fail k = k proc.
+  Proof.
+    intros Hlen. unfold cf_prefix.
+    assert (Hudp : exists x, (if udp then get LD ST spec_Udp "AVTP_UDP_FIELD_ENCAPSULATION_SEQ_NO" pdu 0 else Ok 0) = Ok x).
+    { destruct udp; [|eexists; reflexivity]. rewrite get_ok; [eexists; reflexivity|vm_compute; tauto|reflexivity|rewrite Hlen; cbn; lia]. }
+    destruct Hudp as [x Hx]. rewrite Hx. cbn [xbind].
+    assert (Hp0 : (if udp then 4 else 0) <= 4) by (destruct udp; lia).
+    rewrite get_ok by (first [reflexivity|vm_compute; tauto|rewrite Hlen; cbn [sp_hdr_len spec_CommonHeader]; lia]). cbn [xbind].
+    destruct (_ =? 5).
+    - rewrite get_ok by (first [reflexivity|vm_compute; tauto|rewrite Hlen; cbn [sp_hdr_len spec_Tscf]; lia]). cbn [xbind].
+      eexists. split; [|reflexivity]. destruct udp; lia.
+    - rewrite get_ok by (first [reflexivity|vm_compute; tauto|rewrite Hlen; cbn [sp_hdr_len spec_Ntscf]; lia]). cbn [xbind].
+      eexists. split; [|reflexivity]. destruct udp; lia.
+  Qed.
+
+  Theorem hello_safe udp old d : List.length old = 1500%nat ->
+    survives (fst (fst (hello_recv LD ST udp old d))) /\ List.length (snd (hello_recv LD ST udp old d)) = 1500%nat.
+  Proof.
+    intros Hold. unfold hello_recv.
+    destruct (recv_len MAX_PDU_SIZE old d) as [Hlen [Hres _]]; [rewrite Hold; reflexivity|].
+    destruct (recv_into MAX_PDU_SIZE old d) as [pdu res] eqn:Er. cbn [fst snd] in Hlen, Hres. change MAX_PDU_SIZE with 1500 in *.
+    assert (HL : List.length pdu = 1500%nat) by (unfold blen in Hlen; lia).
+    match goal with |- context [cf_prefix LD ST udp pdu ?f ?k] => destruct (cf_prefix_ok udp pdu f k Hlen) as [proc [Hproc Hk]]; rewrite Hk end.
+    destruct (res <? proc + 8) eqn:E1; [split; [right; reflexivity|exact HL]|]. apply N.ltb_ge in E1.
+    rewrite get_ok by (first [reflexivity|vm_compute; tauto|rewrite Hlen; cbn [sp_hdr_len spec_AcfCommon]; lia]). cbn [xbind].
+    destruct (negb _); [split; [right; reflexivity|exact HL]|].
+    rewrite get_ok by (first [reflexivity|vm_compute; tauto|rewrite Hlen; cbn [sp_hdr_len spec_Gpc]; lia]). cbn [xbind].
+    rewrite get_ok by (first [reflexivity|vm_compute; tauto|rewrite Hlen; cbn [sp_hdr_len spec_Gpc]; lia]). cbn [xbind].
+    match goal with |- context [if ?c then _ else _] => destruct c eqn:E2 end; [|split; [left; reflexivity|exact HL]].
+    apply andb_true_iff in E2. destruct E2 as [_ E2]. apply N.leb_le in E2.
+    match goal with |- context [if ?c then _ else _] => replace c with true by (symmetry; apply N.leb_le; lia) end.
+    split; [left; reflexivity|exact HL].
+  Qed.
+
+  (* ---------- ACF-VSS ---------- *)
+  Lemma addr_mode_ok m : 12 <= blen m -> addr_mode LD ST m = Ok (ref_get spec_Vss "AVTP_VSS_FIELD_ADDR_MODE" m).
+  Proof. intros H. unfold addr_mode. apply (fgetd_exact E spec_Vss); [vm_compute; tauto|reflexivity|exact H]. Qed.
+  Lemma datatype_ok m : 12 <= blen m -> datatype LD ST m = Ok (ref_get spec_Vss "AVTP_VSS_FIELD_VSS_DATATYPE" m).
+  Proof. intros H. unfold datatype. apply (fgetd_exact E spec_Vss); [vm_compute; tauto|reflexivity|exact H]. Qed.
+  Lemma ld_ok w m a : a + N.of_nat (wbytes w) <= blen m -> ld (ldwE E) w m a = Ok (ldwE E w m a).
+  Proof. intros H. unfold ld. replace (a + N.of_nat (wbytes w) <=? blen m) with true by (symmetry; apply N.leb_le; exact H). reflexivity. Qed.
+  Lemma ld16_lt m a : ldwE E W16 m a < 2 ^ 16.
+  Proof. rewrite ldwE_wire. pose proof (be_of_lt (slice m a (wbytes W16))) as H. rewrite length_slice in H. exact H. Qed.
+
+  Definition okres {A} (r:lstat * A * buf) : Prop := survives (fst (fst r)) /\ List.length (snd r) = 1500%nat.
+  Lemma okres_dropped {A} (x:A) pdu : List.length pdu = 1500%nat -> okres (XDropped, x, pdu).
+  Proof. intros H. split; [right; reflexivity|exact H]. Qed.
+  Lemma okres_handled {A} (x:A) pdu : List.length pdu = 1500%nat -> okres (XHandled, x, pdu).
+  Proof. intros H. split; [left; reflexivity|exact H]. Qed.
+
+  Theorem vss_safe udp old d : List.length old = 1500%nat -> okres (vss_recv (ldwE E) LD ST udp old d).
+  Proof.
+    intros Hold. unfold vss_recv.
+    destruct (recv_len MAX_PDU_SIZE old d) as [Hlen [Hres _]]; [rewrite Hold; reflexivity|].
+    destruct (recv_into MAX_PDU_SIZE old d) as [pdu res] eqn:Er. cbn [fst snd] in Hlen, Hres. change MAX_PDU_SIZE with 1500 in *.
+    assert (HL : List.length pdu = 1500%nat) by (unfold blen in Hlen; lia).
+    match goal with |- context [cf_prefix LD ST udp pdu ?f ?k] => destruct (cf_prefix_ok udp pdu f k Hlen) as [proc [Hproc Hk]]; rewrite Hk end.
+    destruct (res <? proc + 14) eqn:E1; [apply okres_dropped; exact HL|]. apply N.ltb_ge in E1.
+    rewrite get_ok by (first [reflexivity|vm_compute; tauto|rewrite Hlen; cbn [sp_hdr_len spec_AcfCommon]; lia]). cbn [xbind].
+    destruct (negb _); [apply okres_dropped; exact HL|].
+    set (m := sub pdu proc).
+    assert (Hm : blen m = 1500 - proc) by (unfold m; rewrite blen_sub, Hlen; reflexivity).
+    rewrite addr_mode_ok by lia. cbn [xbind].
+    set (mode := ref_get spec_Vss "AVTP_VSS_FIELD_ADDR_MODE" m).
+    unfold vss_calc_path_len at 1. rewrite addr_mode_ok by lia. fold mode. cbn [Paths.bind].
+    destruct (mode =? 1) eqn:M1.
+    - (* static id *)
+      cbn [xbind]. destruct (res <? proc + (12 + 4)) eqn:E2; [apply okres_dropped; exact HL|]. apply N.ltb_ge in E2.
+      replace (mode =? 0) with false by (apply N.eqb_eq in M1; rewrite M1; reflexivity). cbn [andb].
+      unfold vss_get_path. rewrite addr_mode_ok by lia. fold mode. cbn [Paths.bind]. rewrite M1.
+      rewrite ld_ok by (cbn [wbytes]; unfold VHDR; lia). cbn [Paths.bind xbind].
+      rewrite datatype_ok by lia. cbn [xbind].
+      match goal with |- context [if ?c then _ else _] => destruct c eqn:E3 end; [|apply okres_handled; exact HL].
+      apply andb_true_iff in E3. destruct E3 as [E3 E4]. apply N.eqb_eq in E3. apply N.leb_le in E4.
+      unfold vss_get_data, vss_calc_path_len. rewrite addr_mode_ok by lia. fold mode. cbn [Paths.bind]. rewrite M1. cbn [Paths.bind].
+      rewrite datatype_ok by lia. cbn [Paths.bind]. rewrite E3.
+      match goal with |- context [vss_kind 9] => replace (vss_kind 9) with (KS (WW W32)) by reflexivity end.
+      rewrite ld_ok by (cbn [wbytes]; unfold VHDR; lia). cbn [Paths.bind xbind].
+      apply okres_handled; exact HL.
+    - destruct (mode =? 0) eqn:M0.
+      + (* interop *)
+        rewrite ld_ok by (cbn [wbytes]; unfold VHDR; lia). cbn [Paths.bind xbind].
+        set (l := ldwE E W16 m VHDR). pose proof (ld16_lt m VHDR) as Hl. fold l in Hl.
+        destruct (res <? proc + (12 + (l + 2) mod 2 ^ 16)) eqn:E2; [apply okres_dropped; exact HL|]. apply N.ltb_ge in E2.
+        cbn [andb]. destruct (12 + (l + 2) mod 2 ^ 16 <? 14) eqn:E5; [apply okres_dropped; exact HL|]. apply N.ltb_ge in E5.
+        assert (Hnw : (l + 2) mod 2 ^ 16 = l + 2).
+        { destruct (N.lt_ge_cases (l + 2) (2 ^ 16)) as [H|H]; [apply N.mod_small; exact H|].
+          exfalso. assert ((l + 2) mod 2 ^ 16 = l + 2 - 2 ^ 16); [|lia].
+          symmetry. apply (N.mod_unique _ _ 1); lia. }
+        rewrite Hnw in *.
+        unfold vss_get_path. rewrite addr_mode_ok by lia. fold mode. cbn [Paths.bind]. rewrite M1, M0.
+        rewrite ld_ok by (cbn [wbytes]; unfold VHDR; lia). cbn [Paths.bind]. fold l.
+        unfold cpy_out. replace ((VHDR + 2 + l <=? blen m) && (l <=? 1500)) with true
+          by (symmetry; apply andb_true_iff; split; apply N.leb_le; unfold VHDR; lia).
+        cbn [Paths.bind xbind].
+        rewrite datatype_ok by lia. cbn [xbind].
+        match goal with |- context [if ?c then _ else _] => destruct c eqn:E3 end; [|apply okres_handled; exact HL].
+        apply andb_true_iff in E3. destruct E3 as [E3 E4]. apply N.eqb_eq in E3. apply N.leb_le in E4.
+        unfold vss_get_data, vss_calc_path_len. rewrite addr_mode_ok by lia. fold mode. cbn [Paths.bind]. rewrite M1, M0.
+        rewrite ld_ok by (cbn [wbytes]; unfold VHDR; lia). cbn [Paths.bind]. fold l. rewrite Hnw.
+        rewrite datatype_ok by lia. cbn [Paths.bind]. rewrite E3.
+        match goal with |- context [vss_kind 9] => replace (vss_kind 9) with (KS (WW W32)) by reflexivity end.
+        rewrite ld_ok by (cbn [wbytes]; unfold VHDR; lia). cbn [Paths.bind xbind].
+        apply okres_handled; exact HL.
+      + (* reserved modes *)
+        cbn [xbind]. destruct (res <? proc + (12 + 0)) eqn:E2; [apply okres_dropped; exact HL|]. apply N.ltb_ge in E2.
+        cbn [andb]. unfold vss_get_path. rewrite addr_mode_ok by lia. fold mode. cbn [Paths.bind]. rewrite M1, M0. cbn [xbind].
+        rewrite datatype_ok by lia. cbn [xbind].
+        match goal with |- context [if ?c then _ else _] => destruct c eqn:E3 end; [|apply okres_handled; exact HL].
+        apply andb_true_iff in E3. destruct E3 as [E3 E4]. apply N.eqb_eq in E3. apply N.leb_le in E4.
+        unfold vss_get_data, vss_calc_path_len. rewrite addr_mode_ok by lia. fold mode. cbn [Paths.bind]. rewrite M1, M0. cbn [Paths.bind].
+        rewrite datatype_ok by lia. cbn [Paths.bind]. rewrite E3.
+        match goal with |- context [vss_kind 9] => replace (vss_kind 9) with (KS (WW W32)) by reflexivity end.
+        rewrite ld_ok by (cbn [wbytes]; unfold VHDR; lia). cbn [Paths.bind xbind].
+        apply okres_handled; exact HL.
+  Qed.
+
+  (* ---------- validation chains ---------- *)
+  Definition rd_total (rd:sformat -> string -> outcome N) (cs:list vcheck) : Prop :=
+    Forall (fun c => match c with Expect s n _ => exists v, rd s n = Ok v | Seq s n => exists v, rd s n = Ok v end) cs.
+  Lemma validate_total rd cs : rd_total rd cs -> forall seq, exists r, validate rd cs seq = Ok r.
+  Proof.
+    induction 1 as [|c cs Hc _ IH]; intros seq; cbn [validate]; [eexists; reflexivity|].
+    destruct c as [s n v|s n]; destruct Hc as [x Hx]; rewrite Hx; cbn [Paths.bind].
+    - destruct (x =? v); [apply IH|eexists; reflexivity].
+    - apply IH.
+  Qed.
+  Ltac rd_tot L :=
+    repeat constructor; eexists;
+    first [apply getf_ok | apply get_ok]; first [vm_compute; tauto | reflexivity | (rewrite L; cbn; lia)].
+
+  (* ---------- AAF ---------- *)
+  Theorem aaf_safe st d : survives (fst (aaf_recv LD ST st d)).
+  Proof.
+    unfold aaf_recv.
+    destruct (recv_len 28 (repeat 0 28%nat) d) as [Hlen _]; [reflexivity|].
+    destruct (recv_into 28 (repeat 0 28%nat) d) as [pdu n]. cbn [fst snd] in Hlen.
+    destruct (negb (n =? 28)); [right; reflexivity|].
+    destruct (validate_total (fun s nm => getf LD ST s nm pdu 0) aaf_checks) with (seq := q_seq st) as [r Hr]; [unfold aaf_checks; rd_tot Hlen|].
+    rewrite Hr. cbn [xbind]. destruct (negb (fst r)); [right; reflexivity|].
+    rewrite getf_ok by (first [vm_compute; tauto | reflexivity | (rewrite Hlen; cbn; lia)]). cbn [xbind]. left. reflexivity.
+  Qed.
+
+  (* ---------- CVF ---------- *)
+  Theorem cvf_safe st d : survives (fst (cvf_recv LD ST st d)).
+  Proof.
+    unfold cvf_recv.
+    destruct (recv_len CVF_PDU (repeat 1 (N.to_nat CVF_PDU)) d) as [Hlen [Hn _]]; [rewrite repeat_length; reflexivity|].
+    destruct (recv_into CVF_PDU (repeat 1 (N.to_nat CVF_PDU)) d) as [pdu n]. cbn [fst snd] in Hlen, Hn. change CVF_PDU with 1428 in *.
+    destruct (n <? 28) eqn:E0; [right; reflexivity|]. apply N.ltb_ge in E0.
+    destruct (validate_total (fun s nm => get LD ST s nm pdu 0) cvf_checks) with (seq := q_seq st) as [r Hr]; [unfold cvf_checks; rd_tot Hlen|].
+    rewrite Hr. cbn [xbind]. destruct (negb (fst r)); [right; reflexivity|].
+    rewrite get_ok by (first [vm_compute; tauto | reflexivity | (rewrite Hlen; cbn; lia)]). cbn [xbind].
+    rewrite get_ok by (first [vm_compute; tauto | reflexivity | (rewrite Hlen; cbn; lia)]). cbn [xbind].
+    match goal with |- context [if ?c then _ else _] => destruct c eqn:E1 end; [right; reflexivity|].
+    apply orb_false_iff in E1. destruct E1 as [E1 E2]. apply N.ltb_ge in E1, E2.
+    match goal with |- context [if ?c then _ else _] => replace c with true end; [left; reflexivity|].
+    symmetry. apply andb_true_iff. split; apply N.leb_le; [lia|rewrite Hlen; lia].
+  Qed.
 End Safe.
+
+(* ---------- CRF: the media clock search ends, whatever the queue holds ---------- *)
+Definition lt64 (t:N) : Prop := t < 2 ^ 64.
+Definition dist (start t:N) : N := (t + 2 ^ 64 - start) mod 2 ^ 64.
+Lemma dist_step start t : t < 2 ^ 64 -> start < 2 ^ 64 -> dist start t < 2 ^ 32 ->
+  dist start ((t + 125000) mod 2 ^ 64) = dist start t + 125000.
+Proof. unfold dist. intros. lia. Qed.
+Lemma mod64_lt x : x mod 2 ^ 64 < 2 ^ 64.
+Proof. apply N.mod_lt. discriminate. Qed.
+
+Lemma lookup_empty avtp start : start < 2 ^ 64 -> forall fuel t lk, t < 2 ^ 64 ->
+  2 ^ 32 <= dist start t + 125000 * N.of_nat fuel ->
+  exists t' lk', lookup_loop fuel avtp start t [] lk = Some (t', [], lk') /\ t' < 2 ^ 64.
+Proof.
+  intros Hs. induction fuel as [|f IH]; intros t lk Ht Hf; cbn [lookup_loop]; change M64 with (2 ^ 64); fold (dist start t).
+  - replace (dist start t <? 2 ^ 32) with false by (symmetry; apply N.ltb_ge; lia). rewrite andb_false_r. eexists _, _. split; [reflexivity|exact Ht].
+  - destruct (negb (t mod 2 ^ 32 =? avtp) && (dist start t <? 2 ^ 32)) eqn:C; [|eexists _, _; split; [reflexivity|exact Ht]].
+    apply andb_true_iff in C. destruct C as [_ C]. apply N.ltb_lt in C.
+    cbn [get_next]. change M64 with (2 ^ 64). unfold MCLK_PERIOD.
+    apply IH; [apply mod64_lt|]. rewrite dist_step by assumption. lia.
+Qed.
+
+Lemma lookup_term avtp start : start < 2 ^ 64 -> forall q fuel t lk, t < 2 ^ 64 -> Forall lt64 q ->
+  N.of_nat (List.length q) + 34360 <= N.of_nat fuel ->
+  exists t' q' lk', lookup_loop fuel avtp start t q lk = Some (t', q', lk') /\ t' < 2 ^ 64 /\ Forall lt64 q'.
+Proof.
+  intros Hs. induction q as [|x q IH]; intros fuel t lk Ht Hq Hf.
+  - destruct (lookup_empty avtp start Hs fuel t lk Ht) as [t' [lk' [H1 H2]]].
+    + cbn [List.length] in Hf. lia.
+    + exists t', [], lk'. repeat split; [exact H1|exact H2|constructor].
+  - destruct fuel as [|f]; [cbn [List.length] in Hf; lia|]. cbn [lookup_loop].
+    match goal with |- context [if ?c then _ else _] => destruct c end.
+    + cbn [get_next]. inversion Hq as [|? ? Hx Hq']; subst. apply IH; [exact Hx|exact Hq'|cbn [List.length] in Hf; lia].
+    + exists t, (x :: q), lk. repeat split; [exact Ht|exact Hq].
+Qed.
+
+Section SafeCrf.
+  Variable E : endian.
+  Notation LD := (ldqE E). Notation ST := (stqE E).
+
+  Definition cinv (c:cstate) : Prop := Forall lt64 (c_queue c) /\ c_prev c < 2 ^ 64.
+
+  Lemma recover_inv k : forall idx ts mtt prev q, Forall lt64 q -> Forall lt64 (recover k idx ts mtt prev q).
+  Proof.
+    induction k as [|k IH]; intros idx ts mtt prev q Hq; cbn [recover]; [exact Hq|].
+    apply IH. match goal with |- context [if ?c then _ else _] => destruct c end; [exact Hq|].
+    apply Forall_app. split; [exact Hq|]. constructor; [|constructor]. unfold lt64. change M64 with (2 ^ 64). apply mod64_lt.
+  Qed.
+
+  Ltac rd_tot68 L :=
+    repeat constructor; eexists;
+    first [apply getf_ok | apply get_ok]; first [vm_compute; tauto | reflexivity | (rewrite L; cbn; lia)].
+
+  Lemma handle_crf_ok talker mtt pdu st : blen pdu = 68 -> cinv st ->
+    exists st', handle_crf LD ST talker mtt pdu st = Ok st' /\ cinv st'.
+  Proof.
+    intros Hlen [Hq Hp]. unfold handle_crf.
+    destruct (validate_total (fun s nm => getf LD ST s nm pdu 0) crf_checks) with (seq := c_crfseq st) as [r Hr]; [unfold crf_checks; rd_tot68 Hlen|].
+    rewrite Hr. cbn [Paths.bind]. destruct (negb (fst r)); eexists; (split; [reflexivity|]); split; cbn [c_queue c_prev]; try assumption.
+    apply recover_inv. exact Hq.
+  Qed.
+
+  Definition okc (r:lstat * list pevent * cstate) : Prop := survives (fst (fst r)) /\ cinv (snd r).
+
+  Lemma handle_aaf_ok pdu st : blen pdu = 68 -> cinv st -> okc (handle_aaf LD ST pdu st).
+  Proof.
+    intros Hlen [Hq Hp]. unfold handle_aaf.
+    destruct (validate_total (fun s nm => getf LD ST s nm pdu 0) crfaaf_checks) with (seq := c_aafseq st) as [r Hr]; [unfold crfaaf_checks; rd_tot68 Hlen|].
+    rewrite Hr. cbn [xbind]. destruct (negb (fst r)); [split; [left; reflexivity|split; assumption]|].
+    rewrite getf_ok by (first [vm_compute; tauto | reflexivity | (rewrite Hlen; cbn; lia)]). cbn [xbind].
+    set (avtp := ref_get spec_Pcm "AVTP_PCM_FIELD_AVTP_TIMESTAMP" (sub pdu 0)).
+    (* the first get_next_mclk_timestamp *)
+    assert (Hg : exists t0 q0 lk0, get_next (c_queue st) (c_prev st) (c_lookup st) = (t0, q0, lk0) /\ t0 < 2 ^ 64 /\ Forall lt64 q0 /\
+                 (List.length q0 <= List.length (c_queue st))%nat).
+    { unfold get_next. destruct (c_queue st) as [|x q] eqn:Eq.
+      - eexists _, _, _. split; [reflexivity|]. change M64 with (2 ^ 64). split; [apply mod64_lt|split; [constructor|cbn; lia]].
+      - inversion Hq; subst. eexists _, _, _. split; [reflexivity|]. split; [assumption|split; [assumption|cbn; lia]]. }
+    destruct Hg as [t0 [q0 [lk0 [Hg [Ht0 [Hq0 Hl0]]]]]]. rewrite Hg.
+    destruct (c_lookup st).
+    - destruct (lookup_term avtp t0 Ht0 q0 (List.length (c_queue st) + N.to_nat 40000) t0 lk0 Ht0 Hq0) as [t' [q' [lk' [Hl [Ht' Hq']]]]].
+      { rewrite Nnat.Nat2N.inj_add, Nnat.N2Nat.id. lia. }
+      rewrite Hl. split; [left; reflexivity|]. split; cbn [snd c_queue c_prev]; assumption.
+    - split; [left; reflexivity|]. split; cbn [snd c_queue c_prev]; assumption.
+  Qed.
+
+  Theorem crf_safe talker mtt st d : cinv st -> okc (crf_recv LD ST talker mtt st d).
+  Proof.
+    intros Hinv. unfold crf_recv.
+    destruct (recv_len 68 (repeat 0 68%nat) d) as [Hlen _]; [reflexivity|].
+    destruct (recv_into 68 (repeat 0 68%nat) d) as [pdu n]. cbn [fst snd] in Hlen.
+    destruct talker.
+    - destruct (negb (n =? 68)); [split; [left; reflexivity|exact Hinv]|].
+      destruct (handle_crf_ok true mtt pdu st Hlen Hinv) as [st1 [H1 Hi1]]. rewrite H1. cbn [xbind].
+      destruct (c_first st1); [|split; [left; reflexivity|exact Hi1]].
+      destruct Hi1 as [Hq1 Hp1]. destruct (c_queue st1) as [|x q] eqn:Eq; (split; [left; reflexivity|]); split; cbn [snd c_queue c_prev]; try assumption.
+      + rewrite Eq. constructor.
+      + inversion Hq1; assumption.
+    - destruct (negb (n =? 48) && negb (n =? 68)); [split; [left; reflexivity|exact Hinv]|].
+      rewrite getf_ok by (first [vm_compute; tauto | reflexivity | (rewrite Hlen; cbn; lia)]). cbn [xbind].
+      destruct (_ =? 4).
+      + destruct (handle_crf_ok false mtt pdu st Hlen Hinv) as [st1 [H1 Hi1]]. rewrite H1. cbn [xbind]. split; [left; reflexivity|exact Hi1].
+      + destruct (_ =? 2); [apply handle_aaf_ok; assumption|split; [left; reflexivity|exact Hinv]].
+  Qed.
+
+End SafeCrf.
